@@ -28,6 +28,10 @@ type CaseC17 struct {
 	Post      bool  `json:"post,omitempty"`
 	PostPrio  []int `json:"post_prio,omitempty"`
 	PostFirst bool  `json:"post_first,omitempty"`
+	// Burst (with Post): every writer is taken through append+persist first; then all of them, parked before
+	// updating the view, are released in the same instant so that their view updates overlap as much as the
+	// scheduler lets them (a race the harness provokes but does not order)
+	Burst bool `json:"burst,omitempty"`
 	// PersistFault > 0: the k-th write of the new head to storage during the first burst fails with an I/O error
 	// (that call returns an error and is not counted as acknowledged); the second burst runs without fault
 	PersistFault int `json:"persist_fault,omitempty"`
@@ -79,6 +83,10 @@ func genC17(rt *rapid.T) CaseC17 {
 		c.Post = true
 		c.PostPrio = rapid.Permutation(seq(c.K)).Draw(rt, "postprio")
 		c.PostFirst = rapid.Bool().Draw(rt, "postfirst")
+		if rapid.IntRange(0, 2).Draw(rt, "burst") == 0 {
+			c.Burst, c.PostFirst = true, false
+			c.Pre = rapid.SampledFrom([]int{0, 3, 40, 120}).Draw(rt, "burstPre")
+		}
 	}
 	return c
 }
@@ -121,6 +129,9 @@ func execC17(c CaseC17) *Outcome {
 	var parked []*parkedWriter
 	stageCount := map[string]int{}
 	prioOf := func(p *parkedWriter) int {
+		if c.Burst && p.stage == "appended" {
+			return 1000 + c.Prio[p.idx%len(c.Prio)]
+		}
 		if p.stage == "persisted" {
 			v := 2 * c.PostPrio[p.idx%len(c.PostPrio)]
 			if c.PostFirst {
@@ -181,6 +192,7 @@ func execC17(c CaseC17) *Outcome {
 	}
 	var acked []string
 	failedCalls := 0
+	burst := false
 	lastPersistedByHook := ""
 	nonTrivial := false
 	infeasible := false
@@ -263,6 +275,43 @@ func execC17(c CaseC17) *Outcome {
 			if finished >= c.K {
 				break
 			}
+			if c.Burst {
+				// all the writers still running sit between persisting and updating the view: let them all go
+				mu.Lock()
+				var held []*parkedWriter
+				allPost := true
+				for i, q := range parked {
+					if releasedIdx[i] {
+						continue
+					}
+					if q.stage != "persisted" {
+						allPost = false
+					}
+					held = append(held, q)
+				}
+				if allPost && len(held) == c.K-finished && len(held) >= 2 {
+					for i := range parked {
+						releasedIdx[i] = true
+					}
+					mu.Unlock()
+					for _, q := range held {
+						close(q.release)
+					}
+					burst = true
+					for finished < c.K {
+						select {
+						case r := <-results:
+							got = append(got, r)
+							finished++
+						case <-time.After(20 * time.Second):
+							o.Inconclusive = true
+							return o
+						}
+					}
+					break
+				}
+				mu.Unlock()
+			}
 			// choose among parked, not yet released writers the one with the highest priority
 			mu.Lock()
 			best := -1
@@ -329,14 +378,24 @@ func execC17(c CaseC17) *Outcome {
 				continue
 			}
 			// wait until that writer returns before releasing the next one, so that
-			// the persist order is exactly the release order
+			// the persist order is exactly the release order (a writer that comes to a park point once more
+			// instead of returning - a call that appends again - is picked up by the next round)
+			mu.Lock()
+			parkedBefore := len(parked)
+			mu.Unlock()
+			if !world.WaitFor(func() bool {
+				mu.Lock()
+				defer mu.Unlock()
+				return len(results) > 0 || len(parked) > parkedBefore
+			}, 20*time.Second) {
+				o.Inconclusive = true
+				return o
+			}
 			select {
 			case r := <-results:
 				got = append(got, r)
 				finished++
-			case <-time.After(20 * time.Second):
-				o.Inconclusive = true
-				return o
+			default:
 			}
 		}
 		seen := map[string]bool{}
@@ -429,6 +488,9 @@ func execC17(c CaseC17) *Outcome {
 	}
 	if infeasible {
 		o.Labels = append(o.Labels, "schedule-partly-infeasible(lock)")
+	}
+	if burst {
+		o.Labels = append(o.Labels, "view-updates-released-together")
 	}
 	if failedCalls > 0 {
 		o.Labels = append(o.Labels, "head-write-failed-once")
